@@ -247,6 +247,19 @@ var condFinishers = []fin{
 	{Label: `Model(&T{ID:1}).Updates(struct)`, Match: is1, Run: func(db *gorm.DB, m int) *gorm.DB {
 		return db.Model(withID(m, 1)).Updates(updStruct(m))
 	}},
+	{Label: `Model(&T{ID:1}).Updates(map)`, Match: is1, Run: func(db *gorm.DB, m int) *gorm.DB {
+		return db.Model(withID(m, 1)).Updates(map[string]interface{}{"name": "changed"})
+	}},
+	{Label: `Model(&T{ID:1}).UpdateColumns(map)`, Match: is1, Run: func(db *gorm.DB, m int) *gorm.DB {
+		return db.Model(withID(m, 1)).UpdateColumns(map[string]interface{}{"name": "changed"})
+	}},
+	// the key is only in the Model() value, the finisher's own value has none
+	{Label: `Model(&T{ID:1}).Delete(&T{})`, IsDelete: true, Match: is1, Run: func(db *gorm.DB, m int) *gorm.DB {
+		return db.Model(withID(m, 1)).Delete(zeroPtr(m))
+	}},
+	{Label: `Model(&T{ID:1}).Delete(&[]T{{},{}})`, IsDelete: true, Match: is1, Run: func(db *gorm.DB, m int) *gorm.DB {
+		return db.Model(withID(m, 1)).Delete(zeroSlice(m))
+	}},
 }
 
 const (
@@ -714,7 +727,7 @@ func main() {
 	run.Finish(map[string]interface{}{
 		"evaluations":         st.total,
 		"distinct_nontrivial": distinct.Len(),
-		"rule":                "every chain of <=K condition-free calls (K=2 over 30 calls incl. zero-key slice/array models and reuse of a handle that already ran a finisher via Session/WithContext, K=3 over 8 calls in quick; K=3/4 in thorough) x 9 update/delete finishers x {plain,soft-delete} x AllowGlobalUpdate{off,config,session}, plus every such chain (shorter) with one of 16 real conditions at every position and 7 finishers carrying an inline/model-key condition; distinct = distinct (chain,finisher,model[,condition,position]) programs whose oracle was fully evaluated (error identity, driver log, cell-level table diff)",
+		"rule":                "every chain of <=K condition-free calls (K=2 over 30 calls incl. zero-key slice/array models and reuse of a handle that already ran a finisher via Session/WithContext, K=3 over 8 calls in quick; K=3/4 in thorough) x 9 update/delete finishers x {plain,soft-delete} x AllowGlobalUpdate{off,config,session}, plus every such chain (shorter) with one of 16 real conditions at every position and 11 finishers carrying an inline/model-key condition (incl. the key only in the Model() value of a Delete); distinct = distinct (chain,finisher,model[,condition,position]) programs whose oracle was fully evaluated (error identity, driver log, cell-level table diff)",
 		"samples":             samples.List(),
 		"exhaustive":          true,
 		"condition_free_cases": st.negative,
